@@ -23,6 +23,8 @@ FOCI = {
     "K": "a change that only shows under a particular relative pacing of the two entities: one entity makes several state machine calls before the other gets its turn, PDUs pile up on the link and answers (ACK, NAK, Finished) arrive late but in order, the sender is far ahead of the receiver's NAKs or the receiver works in bursts",
     "L": "a change in how the library treats objects it shares with its user: PutRequest, RemoteEntityCfg / LocalEntityCfg / IndicationCfg, the parameter objects passed to indication callbacks, PDU objects handed in or out - mutated, kept by reference and read later, or copied too early, so that what the user does with the object afterwards (re-use, edit, inspect later) goes wrong",
     "M": "a change in the handling of time: a Countdown created too early or too late, reset at the wrong place or not at all, an expiry consumed by the wrong procedure, behaviour when the user changes an interval between transactions or when an interval is very small or very large",
+    "N": "a change outside the two handler modules: filestore.py (NativeFilestore operations, path handling, error codes, checksum reading loop), crc.py, mib.py (tables, lookups, defaults, fault handler table), request.py, user.py, handler/common.py, handler/defs.py, exceptions.py - a place a reviewer of a 'handler' change would not look at",
+    "O": "a change that only shows for unusual but legal orders of API calls: get_next_packet when nothing is queued, state_machine before any request or after completion, reset() in the middle of a transaction or twice, cancel_request twice or after completion, a put request right after reset, queries of the handler's public properties (state, step, progress, transaction_id, num_packets_ready) between calls",
     "D": "a boundary-value problem that needs an unusual but legal configuration or input (entity-id or sequence-number width, CRC flag, checksum type, file size relative to segment length or packet length, limit of 1, zero-length or maximum-length field, large-file flag)",
 }
 for pid in sys.argv[1:]:
